@@ -100,12 +100,14 @@ package hamt
 //@ props C05 C12 C13
 
 //@ func (*hamt._UnixFSHAMTShard).loadChild
-//@ domain counter-no-wrap: 0 <= loads && loads < (1 << 62)
+//@ ensures last-load-is-the-result: lastLoad == old(lastLoad) || (err == nil && lastLoad == result)
+//@ ensures walked-is-monotone: forall w Ref :: old(walked(w)) ==> walked(w)
+//@ inst walked-is-monotone: w: w
+//@ ensures load-failure-is-returned: (err == nil ==> loadFailed == old(loadFailed)) && (old(loadFailed) ==> loadFailed)
 //@ ensures at-most-one-request: old(loads) <= loads && loads <= old(loads) + 1
 //@ ensures err != nil ==> result == nil
 
 //@ func (*hamt._UnixFSHAMTShard).lookup
-//@ domain counter-no-wrap: 0 <= loads && loads < (1 << 61)
 //@ at call (*hamt._UnixFSHAMTShard).lookup#1 assert one-request-per-level: old(loads) <= loads && loads <= old(loads) + 1 && hv.consumed >= old(hv.consumed) + 1 && hv.consumed <= len(hv.b) * 8
 //@ decreases len(hv.b) * 8 - hv.consumed
 
@@ -113,6 +115,19 @@ package hamt
 // walked again (this is what keeps Length()/preload linear on DAGs with shared sub-shards).
 //@ props C06 C13 C20
 //@ func (*hamt._UnixFSHAMTShard).length
+//@ prop C20
+//@ at return ghost walked(n) = walked(n) || err == nil
+//@ ensures walked-when-done: err == nil ==> walked(n)
+//@ ensures depth-first: err == nil ==> (lastLoad == old(lastLoad) || walked(lastLoad))
+//@ ensures walked-is-monotone: forall w Ref :: old(walked(w)) ==> walked(w)
+//@ inst walked-is-monotone: w: w
+//@ loop 0 invariant descend-before-next-sibling: lastLoad == old(lastLoad) || walked(lastLoad)
+//@ loop 0 invariant walked-is-monotone-so-far: forall w Ref :: old(walked(w)) ==> walked(w)
+//@ inst walked-is-monotone-so-far: w: w
+//@ inst descend-before-next-sibling: w: lastLoad
+//@ inst depth-first: w: lastLoad
+//@ ensures any-load-failure-fails-the-walk: (err == nil ==> loadFailed == old(loadFailed)) && (old(loadFailed) ==> loadFailed)
+//@ loop 0 invariant no-failure-so-far: loadFailed == old(loadFailed)
 //@ ensures memo-hit: old(n.cachedLength) != -1 ==> err == nil && result == old(n.cachedLength) && loads == old(loads)
 //@ ensures memo-set: err == nil ==> n.cachedLength == result
 //@ ensures error-is-reported: err != nil ==> result == 0
@@ -130,3 +145,6 @@ package hamt
 //@ ensures exhausted-child-is-dropped: itr.childIter != nil ==> !itrDone(itr.childIter)
 //@ func (*hamt._UnixFSShardedDir__ListItr).Next
 //@ ensures exhausted-child-is-dropped: itr.childIter != nil ==> !itrDone(itr.childIter)
+
+//@ func hamt.NewUnixFSHAMTShardWithPreload
+//@ ensures any-load-failure-fails-the-preload: err == nil ==> loadFailed == old(loadFailed)
